@@ -209,6 +209,79 @@ func (e *Engine) addReach(st *State, name string) {
 }
 
 // reachProbesFor: only the function under contract and the closures declared inside it get probes.
+// hasDynamicCall: does fn (or a closure it creates) call a function value?
+func hasDynamicCall(fn *ssa.Function, busy map[*ssa.Function]bool) bool {
+	if fn == nil || busy[fn] {
+		return false
+	}
+	busy[fn] = true
+	for _, b := range fn.Blocks {
+		for _, in := range b.Instrs {
+			switch x := in.(type) {
+			case *ssa.MakeClosure:
+				if hasDynamicCall(x.Fn.(*ssa.Function), busy) {
+					return true
+				}
+			case ssa.CallInstruction:
+				cc := x.Common()
+				if _, bi := cc.Value.(*ssa.Builtin); !bi && !cc.IsInvoke() && cc.StaticCallee() == nil {
+					return true
+				}
+			}
+		}
+	}
+	return false
+}
+
+// loopRunsClosures: the loop body creates a closure that calls a function value (fingerRangeView hands its callback
+// on inside a closure it creates per iteration).
+func (e *Engine) loopRunsClosures(li *loopInfo) bool {
+	for b := range li.body {
+		for _, in := range b.Instrs {
+			if mc, ok := in.(*ssa.MakeClosure); ok {
+				if hasDynamicCall(mc.Fn.(*ssa.Function), map[*ssa.Function]bool{}) {
+					return true
+				}
+			}
+		}
+	}
+	return false
+}
+
+// havocKnownClosureWrites gives arbitrary contents to every variable that a closure known to this execution (held
+// in a register or cell of any active frame, or registered as a function-value term) may write.
+func (e *Engine) havocKnownClosureWrites(st *State) {
+	seen := map[*ssa.Function]bool{}
+	visit := func(v Val) {
+		if v.K == kTerm {
+			if cv, ok := e.closureRev[v.T]; ok {
+				v = cv
+			}
+		}
+		if v.K != kClosure || v.Fn == nil || seen[v.Fn] {
+			return
+		}
+		seen[v.Fn] = true
+		w := closureWrites(v.Fn, map[*ssa.Function]bool{})
+		for j, b := range v.Binds {
+			if w[j] {
+				e.havocArgs(st, []Val{b})
+			}
+		}
+	}
+	for _, fr := range st.frames {
+		for _, v := range fr.regs {
+			visit(v)
+		}
+		for _, v := range fr.closure {
+			visit(v)
+		}
+	}
+	for _, v := range st.cells {
+		visit(v)
+	}
+}
+
 var reachProbes = os.Getenv("SPECV_REACH") != ""
 
 func (e *Engine) reachProbesFor(fn *ssa.Function) bool {
